@@ -113,32 +113,41 @@ Section Generic.
     apply filter_In in H0. tauto.
   Qed.
 
+  Lemma filter_cons_true : forall (f : A -> bool) x l, f x = true -> filter f (x :: l) = x :: filter f l.
+  Proof. intros f x l H. simpl. rewrite H. reflexivity. Qed.
+
+  Lemma eqvb_refl : forall x, eqvb x x = true.
+  Proof. intros x. unfold eqvb. rewrite (tp_refl TP). reflexivity. Qed.
+
+  Lemma le_refl : forall x, le x x.
+  Proof. intros x. unfold le. rewrite (tp_refl TP). congruence. Qed.
+
   Lemma sorted_stable_unique : forall l1 l2,
       StronglySorted le l1 -> StronglySorted le l2 ->
       (forall z, filter (eqvb z) l1 = filter (eqvb z) l2) -> l1 = l2.
   Proof.
     induction l1 as [|x t1 IH]; intros l2 S1 S2 F.
     - destruct l2 as [|y t2]; [reflexivity|]. exfalso.
-      specialize (F y). simpl in F. unfold eqvb in F. rewrite (tp_refl TP) in F. discriminate.
+      specialize (F y). rewrite (filter_cons_true _ _ _ (eqvb_refl y)) in F. discriminate.
     - destruct l2 as [|y t2].
-      { exfalso. specialize (F x). simpl in F. unfold eqvb in F. rewrite (tp_refl TP) in F. discriminate. }
+      { exfalso. specialize (F x). rewrite (filter_cons_true _ _ _ (eqvb_refl x)) in F. discriminate. }
       inversion S1 as [|? ? S1t Hx]; subst. inversion S2 as [|? ? S2t Hy]; subst.
+      assert (Lyx : le y x).
+      { pose proof (F x) as Fx. rewrite (filter_cons_true _ _ _ (eqvb_refl x)) in Fx.
+        symmetry in Fx. apply filter_head_in in Fx. destruct Fx as [->|Hin].
+        - apply le_refl.
+        - rewrite Forall_forall in Hy. apply Hy. exact Hin. }
+      assert (Lxy : le x y).
+      { pose proof (F y) as Fy. rewrite (filter_cons_true _ y t2 (eqvb_refl y)) in Fy.
+        apply filter_head_in in Fy. destruct Fy as [->|Hin].
+        - apply le_refl.
+        - rewrite Forall_forall in Hx. apply Hx. exact Hin. }
       assert (Exy : c x y = Eq).
-      { (* x occurs in y :: t2, y occurs in x :: t1 *)
-        assert (Lyx : le y x).
-        { pose proof (F x) as Fx. simpl in Fx. unfold eqvb at 1 in Fx. rewrite (tp_refl TP) in Fx.
-          symmetry in Fx. apply filter_head_in in Fx. destruct Fx as [->|Hin].
-          - unfold le. rewrite (tp_refl TP). congruence.
-          - rewrite Forall_forall in Hy. apply Hy. exact Hin. }
-        assert (Lxy : le x y).
-        { pose proof (F y) as Fy. simpl in Fy. unfold eqvb at 2 in Fy. rewrite (tp_refl TP) in Fy.
-          apply filter_head_in in Fy. destruct Fy as [->|Hin].
-          - unfold le. rewrite (tp_refl TP). congruence.
-          - rewrite Forall_forall in Hx. apply Hx. exact Hin. }
-        unfold le in *. rewrite (tp_sym TP) in Lyx. destruct (c x y); simpl in *; congruence. }
+      { unfold le in *. rewrite (tp_sym TP) in Lyx. destruct (c x y); simpl in *; congruence. }
       assert (x = y).
-      { pose proof (F x) as Fx. simpl in Fx. unfold eqvb at 1 3 in Fx.
-        rewrite (tp_refl TP), Exy in Fx. congruence. }
+      { pose proof (F x) as Fx. rewrite (filter_cons_true _ _ _ (eqvb_refl x)) in Fx.
+        rewrite (filter_cons_true (eqvb x) y t2) in Fx by (unfold eqvb; rewrite Exy; reflexivity).
+        congruence. }
       subst y. f_equal. apply IH; try assumption.
       intros z. specialize (F z). simpl in F. destruct (eqvb z x); congruence.
   Qed.
